@@ -250,7 +250,7 @@ def run(ctx):
         else:
             corpus, n = [case["query"]], 0
     else:
-        n = 30 if ctx.tier == "quick" else 400
+        n = 30 if ctx.tier == "quick" else 300
         if ctx.broken:
             n *= 5
     cases = corpus + (gen_cases(rng.fork(1), n) if n else [])
@@ -294,7 +294,8 @@ def run(ctx):
                         ctx.cov["distinct_nontrivial"] += 1
                 elif v.startswith("MONFAIL"):
                     key = KEY_SEM if q.startswith("semwait") else None
-                    ctx.violation(v, {"query": q, "impl": out[i], "verdict": v}, key=key)
+                    if key is None or key not in [x.get("key") for x in ctx.violations]:
+                        ctx.violation(v, {"query": q, "impl": out[i], "verdict": v}, key=key)
                 else:
                     if len([b for b in ctx.broken if b.get("kind") == "codec-differs"]) < 5:
                         ctx.broken.append({"kind": "codec-differs", "query": q, "impl": out[i][:400], "verdict": v[:300]})
